@@ -115,6 +115,18 @@ pub fn run(env: &Env, run: &Run) -> (Stats, Coverage) {
                     let v = check_label(env, Prof::Ucm, &s, &mut st);
                     count(v, &mut st);
                 }
+                // the code point next to each of its bit-16..20 aliases (plane-blind lookups)
+                for a in alias_chars(char::from_u32(cp).unwrap()) {
+                    let a = a as u32;
+                    if !env.ud16.assigned(a) {
+                        continue;
+                    }
+                    for lab in [vec![cp, a], vec![a, cp], vec![r, a, cp, r]] {
+                        st.transitions += 1;
+                        let s = from_cps(&lab);
+                        check_label(env, Prof::Ucm, &s, &mut st);
+                    }
+                }
             }
             st
         })
@@ -122,12 +134,21 @@ pub fn run(env: &Env, run: &Run) -> (Stats, Coverage) {
     for s in shards {
         st.merge(s);
     }
+    // (c) pumped runs over the class representatives: a^k b, b a^k, a^k b a for k up to 1025
+    {
+        let mut fam = pumped(&alpha, &PUMP_LENGTHS);
+        fam.extend(pumped(&alpha, &PUMP_LENGTHS_LONG));
+        st.merge(run_family(&fam, |s, st| {
+            let v = check_label(env, Prof::Ucm, s, st);
+            count(v, st);
+        }));
+    }
     st.sample(json!({"classes": ["R", "NSM", "R"], "expected": "accept (RFC 5893: NSM allowed anywhere in an RTL label; last non-NSM is R)"}));
     st.sample(json!({"classes": ["R", "EN", "AN"], "expected": "Err(Invalid): EN and AN mixed"}));
     st.sample(json!({"classes": ["L", "R"], "expected": "Err(Invalid): R in an LTR label"}));
     st.sample(json!({"classes": ["EN", "L"], "expected": "Ok unchanged: no R/AL/AN, rule does not apply"}));
     let cov = Coverage {
-        rule: format!("(a) every sequence of length <= {} over the 23 bidirectional classes (one representative code point per class, rotated by VERIF_SEED) through directionality_rule; (b) every code point assigned in the profile crate's UnicodeData in the contexts c, Rc, RcR, R AN c R, LcL; oracle = the six RFC 5893 conditions as set predicates over the class sequence (not a scan), classes from an independent reader of UnicodeData; Ok results must equal the input; non-trivial = labels that contain R/AL/AN (the rule is actually judged)", n),
+        rule: format!("(a) every sequence of length <= {} over the 23 bidirectional classes (one representative code point per class, rotated by VERIF_SEED) through directionality_rule; (b) every code point assigned in the profile crate's UnicodeData in the contexts c, Rc, RcR, R AN c R, LcL and next to each of its assigned bit-16..20 aliases; (c) pumped runs a^k b, b a^k, a^k b a over the 23 representatives for k in 6..9, 15..17, 30..33, 63..65, 127..129, 255..257, 1023, 1025; oracle = the six RFC 5893 conditions as set predicates over the class sequence (not a scan), classes from an independent reader of UnicodeData; Ok results must equal the input; non-trivial = labels that contain R/AL/AN (the rule is actually judged)", n),
         alphabet: json!(reps.iter().map(|(c, ch)| format!("{}=U+{:04X}", c, *ch as u32)).collect::<Vec<_>>()),
         bound_completed: format!("all {} class sequences of length <= {}; table: every assigned code point x 5 contexts", tree_size(23, n), n),
         exhaustive: false,
